@@ -7,6 +7,7 @@ import (
 	"testing"
 
 	"github.com/cloudflare/circl/internal/zzverif/lib"
+	"github.com/cloudflare/circl/kem"
 )
 
 // TestVerifOutputBuffers: the concrete key types' buffer-filling methods
@@ -127,6 +128,22 @@ func TestVerifOutputBuffers(t *testing.T) {
 						continue
 					}
 					lib.Count("outbuf:public-key-object-reloaded")
+					// the reloaded object (which has encapsulated before, under its
+					// first key) must now encapsulate exactly like a fresh decode of
+					// the key it was loaded with
+					if tp, ok := target.(kem.PublicKey); ok {
+						if fresh, ferr := s.UnmarshalBinaryPublicKey(lib.Clone(other)); ferr == nil {
+							ctR, ssR, e1 := s.EncapsulateDeterministically(tp, es)
+							ctF, ssF, e2 := s.EncapsulateDeterministically(fresh, es)
+							lib.Count("outbuf:reloaded-public-key-encapsulates")
+							if (e1 == nil) != (e2 == nil) || !lib.Eq(ctR, ctF) || !lib.Eq(ssR, ssF) {
+								d := lib.D("seed", seed, "eseed", es, "loaded_key", other, "ct_same", lib.Eq(ctR, ctF), "ss_same", lib.Eq(ssR, ssF))
+								d["scheme"] = name
+								lib.Violation("C01:reloaded-public-key-object-encapsulates-differently:"+name, mon, d)
+								break
+							}
+						}
+					}
 					got, derr := s.Decapsulate(sk, ct0)
 					now, _ := sk.MarshalBinary()
 					if derr != nil || !lib.Eq(got, ss0) || !lib.Eq(now, skb) {
